@@ -56,9 +56,9 @@ type seqCase struct {
 	Ops      []opT     `json:"ops"`
 	// LoadMode: 0 = flow.LoadRules for prologue and rules; 1 = flow.LoadRulesOfResource per resource
 	// (in LoadOrder) for both; 2 = prologue through LoadRules, rules per resource
-	LoadMode  int   `json:"load_mode,omitempty"`
-	LoadOrder []int `json:"load_order,omitempty"`
-	TF    uint64    `json:"tf"`
+	LoadMode  int    `json:"load_mode,omitempty"`
+	LoadOrder []int  `json:"load_order,omitempty"`
+	TF        uint64 `json:"tf"`
 	// Reloads: immediately before operation At the case's own rules are loaded again (fresh objects;
 	// whole set, or the rules of the resource of operation At) together with one rule of a strategy
 	// pair served by a generator the harness registered; that generator is called in the middle of the
@@ -104,7 +104,10 @@ type finT struct {
 
 func fstr(f float64) string { return strconv.FormatFloat(f, 'g', -1, 64) }
 
-var itvChoices = []int64{0, 0, 0, 1000, 2000, 2500, 250, 300, 750, 20000, 1500, 3000, 500, 5000, 10000, 1, 7}
+// statistic intervals: default / the metric interval, multiples of the global bucket length (500 ms), and
+// values that are NOT multiples of it - inside [500, 10000] (one bucket of that odd length: 750, 1750, 1250,
+// 1001, 2750, 9999) and outside (250, 300, 1, 7, 333, 10001, 12345, 20000)
+var itvChoices = []int64{0, 0, 0, 1000, 2000, 2500, 250, 300, 750, 20000, 1500, 3000, 500, 5000, 10000, 1, 7, 1750, 1250, 1001, 2750, 9999, 333, 10001, 12345}
 var thrChoices = []float64{0, 0, 0.5, 0.999, 1, 1, 1.5, 2, 2, 2.999, 3, 3, 4, 5, 7.25, 10, 20, 50, 1000000, 4294967296.5, 1e15}
 
 func genRule(r *rng.R, nres, own int) ruleT {
@@ -723,9 +726,9 @@ func coqSeq(c seqCase, obs []obsT, fin []finT) string {
 type concCase struct {
 	ID      int      `json:"id"`
 	T0      uint64   `json:"t0"`
-	Rules   []ruleT  `json:"rules"`   // of resource 0
-	Prefill []uint32 `json:"prefill"` // sequential admissions before the schedule
-	Batches []uint32 `json:"batches"` // one per goroutine
+	Rules   []ruleT  `json:"rules"`    // of resource 0
+	Prefill []uint32 `json:"prefill"`  // sequential admissions before the schedule
+	Batches []uint32 `json:"batches"`  // one per goroutine
 	Sched   []int    `json:"schedule"` // goroutine index per step; negative = advance the clock by -x ms
 	// Reset cases: the prefill is recorded at T0, the clock then advances by Gap (whole array
 	// cycles, same bucket), a first request is stepped through the yields of the bucket reset it
